@@ -650,44 +650,257 @@ theorem lines_ok : KindOK (.modelled linesCodec) := by
   intro v ⟨l, hv, hl⟩; subst hv
   simp only [linesCodec, listSer, lines_join l hl]
 
+theorem sortStrings_sorted (l : List Str) (h : l.Pairwise (fun a b => strLe a b = true)) : sortStrings l = l :=
+  List.mergeSort_of_pairwise h
+
 theorem types_ok : KindOK (.modelled typesCodec) := by
   intro v hv
-  rcases hv with rfl | rfl | rfl | rfl <;> decide +kernel
+  rcases hv with rfl | rfl | rfl | rfl
+  · have : sortStrings [] = [] := sortStrings_sorted _ (by simp)
+    simp only [typesCodec, this]; decide +kernel
+  · have : sortStrings [c!"deb"] = [c!"deb"] := sortStrings_sorted _ (by simp)
+    simp only [typesCodec, this]; decide +kernel
+  · have : sortStrings [c!"deb-src"] = [c!"deb-src"] := sortStrings_sorted _ (by simp)
+    simp only [typesCodec, this]; decide +kernel
+  · have : sortStrings [c!"deb", c!"deb-src"] = [c!"deb", c!"deb-src"] :=
+      sortStrings_sorted _ (by simp; decide)
+    simp only [typesCodec, this]; decide +kernel
+
+/-! #### the environment map: any number of variables -/
+
+theorem char_eq_of_toNat (a b : Char) (h : a.toNat = b.toNat) : a = b :=
+  Char.ext (UInt32.toNat_inj.mp h)
+
+theorem strLt_trans (a b c : Str) (h1 : strLt a b = true) (h2 : strLt b c = true) : strLt a c = true := by
+  induction a generalizing b c with
+  | nil =>
+    cases b with
+    | nil => simp [strLt] at h1
+    | cons y ys => cases c <;> simp [strLt] at h2 ⊢
+  | cons x xs ih =>
+    cases b with
+    | nil => simp [strLt] at h1
+    | cons y ys =>
+      cases c with
+      | nil => simp [strLt] at h2
+      | cons z zs =>
+        simp only [strLt] at h1 h2 ⊢
+        by_cases hxy : x.toNat < y.toNat
+        · by_cases hyz : y.toNat < z.toNat
+          · have : x.toNat < z.toNat := by omega
+            simp [this]
+          · by_cases hzy : z.toNat < y.toNat
+            · simp [hyz, hzy] at h2
+            · have : x.toNat < z.toNat := by omega
+              simp [this]
+        · by_cases hyx : y.toNat < x.toNat
+          · simp [hxy, hyx] at h1
+          · simp only [hxy, hyx, ↓reduceIte] at h1
+            by_cases hyz : y.toNat < z.toNat
+            · have : x.toNat < z.toNat := by omega
+              simp [this]
+            · by_cases hzy : z.toNat < y.toNat
+              · simp [hyz, hzy] at h2
+              · simp only [hyz, hzy, ↓reduceIte] at h2
+                have h3 : ¬ x.toNat < z.toNat := by omega
+                have h4 : ¬ z.toNat < x.toNat := by omega
+                simp only [h3, h4, ↓reduceIte]
+                exact ih ys zs h1 h2
+
+theorem strLt_total (a b : Str) (h1 : strLt a b = false) (h2 : a ≠ b) : strLt b a = true := by
+  induction a generalizing b with
+  | nil =>
+    cases b with
+    | nil => exact absurd rfl h2
+    | cons y ys => simp [strLt] at h1
+  | cons x xs ih =>
+    cases b with
+    | nil => simp [strLt]
+    | cons y ys =>
+      simp only [strLt] at h1 ⊢
+      by_cases hxy : x.toNat < y.toNat
+      · simp [hxy] at h1
+      · by_cases hyx : y.toNat < x.toNat
+        · simp [hyx]
+        · simp only [hxy, hyx, ↓reduceIte] at h1 ⊢
+          have hc : x = y := char_eq_of_toNat x y (by omega)
+          subst hc
+          exact ih ys h1 (fun e => h2 (by rw [e]))
+
+theorem mem_mapInsert (k v : Str) (m : List (Str × Str)) (q : Str × Str) (h : q ∈ mapInsert k v m) :
+    q = (k, v) ∨ q ∈ m := by
+  induction m with
+  | nil => simp [mapInsert] at h; left; exact h
+  | cons p r ih =>
+    simp only [mapInsert] at h
+    split at h
+    · simp only [List.mem_cons] at h ⊢
+      rcases h with h | h
+      · left; exact h
+      · right; right; exact h
+    · split at h
+      · simp only [List.mem_cons] at h ⊢
+        rcases h with h | h | h
+        · left; exact h
+        · right; left; exact h
+        · right; right; exact h
+      · simp only [List.mem_cons] at h ⊢
+        rcases h with h | h
+        · right; left; exact h
+        · rcases ih h with h | h
+          · left; exact h
+          · right; right; exact h
+
+theorem mapInsert_sorted (k v : Str) (m : List (Str × Str)) (h : MapSorted m) : MapSorted (mapInsert k v m) := by
+  induction m with
+  | nil => simp [mapInsert, MapSorted]
+  | cons p r ih =>
+    have hp := List.pairwise_cons.1 h
+    simp only [mapInsert]
+    split
+    · rename_i hk
+      apply List.pairwise_cons.2
+      exact ⟨fun q hq => by simpa [hk] using hp.1 q hq, hp.2⟩
+    · rename_i hk
+      split
+      · rename_i hlt
+        apply List.pairwise_cons.2
+        refine ⟨?_, h⟩
+        intro q hq
+        simp only [List.mem_cons] at hq
+        rcases hq with rfl | hq
+        · exact hlt
+        · exact strLt_trans _ _ _ hlt (hp.1 q hq)
+      · rename_i hlt
+        apply List.pairwise_cons.2
+        refine ⟨?_, ih hp.2⟩
+        intro q hq
+        rcases mem_mapInsert k v r q hq with rfl | hq
+        · exact strLt_total k p.1 (by simpa using hlt) hk
+        · exact hp.1 q hq
+
+theorem mapInsert_perm (k v : Str) (m : List (Str × Str)) (h : k ∉ m.map (·.1)) :
+    List.Perm (mapInsert k v m) ((k, v) :: m) := by
+  induction m with
+  | nil => simp [mapInsert]
+  | cons p r ih =>
+    simp only [List.map_cons, List.mem_cons, not_or] at h
+    simp only [mapInsert, h.1, ↓reduceIte]
+    split
+    · exact List.Perm.refl _
+    · exact (List.Perm.cons p (ih h.2)).trans (List.Perm.swap _ _ _)
+
+def insAll (acc : List (Str × Str)) (ps : List (Str × Str)) : List (Str × Str) :=
+  ps.foldl (fun a p => mapInsert p.1 p.2 a) acc
+
+theorem insAll_spec (ps acc : List (Str × Str)) (hs : MapSorted acc) (hn : (ps.map (·.1)).Nodup)
+    (hd : ∀ p ∈ ps, p.1 ∉ acc.map (·.1)) :
+    MapSorted (insAll acc ps) ∧ List.Perm (insAll acc ps) (ps ++ acc) := by
+  induction ps generalizing acc with
+  | nil => exact ⟨hs, List.Perm.refl _⟩
+  | cons p r ih =>
+    simp only [List.map_cons, List.nodup_cons] at hn
+    have hp := hd p (by simp)
+    have hperm := mapInsert_perm p.1 p.2 acc hp
+    have hd' : ∀ q ∈ r, q.1 ∉ (mapInsert p.1 p.2 acc).map (·.1) := by
+      intro q hq hmem
+      simp only [List.mem_map] at hmem
+      obtain ⟨e, he, hek⟩ := hmem
+      rcases mem_mapInsert _ _ _ e he with rfl | he'
+      · apply hn.1; simp only [List.mem_map]; exact ⟨q, hq, hek.symm⟩
+      · exact hd q (by simp [hq]) (by simp only [List.mem_map]; exact ⟨e, he', hek⟩)
+    obtain ⟨h1, h2⟩ := ih (mapInsert p.1 p.2 acc) (mapInsert_sorted _ _ _ hs) hn.2 hd'
+    refine ⟨h1, ?_⟩
+    show List.Perm (insAll (mapInsert p.1 p.2 acc) r) (p :: r ++ acc)
+    refine h2.trans ?_
+    have : List.Perm (r ++ mapInsert p.1 p.2 acc) (r ++ (p.1, p.2) :: acc) := List.Perm.append_left r hperm
+    refine this.trans ?_
+    simpa using (List.perm_middle (a := p) (l₁ := r) (l₂ := acc))
+
+theorem mapSorted_nodup (m : List (Str × Str)) (h : MapSorted m) : (m.map (·.1)).Nodup := by
+  induction m with
+  | nil => simp
+  | cons p r ih =>
+    have hp := List.pairwise_cons.1 h
+    simp only [List.map_cons, List.nodup_cons]
+    refine ⟨?_, ih hp.2⟩
+    intro hm
+    simp only [List.mem_map] at hm
+    obtain ⟨q, hq, hqk⟩ := hm
+    have := hp.1 q hq
+    rw [hqk, C18.strLt_irrefl] at this
+    simp at this
+
+/-- inserting the entries of a canonical map in any order rebuilds it -/
+theorem insAll_perm_eq (m ps : List (Str × Str)) (hm : MapSorted m) (hp : List.Perm ps m) : insAll [] ps = m := by
+  have hn : (ps.map (·.1)).Nodup := (hp.map (·.1)).nodup_iff.2 (mapSorted_nodup m hm)
+  obtain ⟨h1, h2⟩ := insAll_spec ps [] (by simp [MapSorted]) hn (by simp)
+  simp only [List.append_nil] at h2
+  have key := @List.Perm.eq_of_pairwise (Str × Str) (fun p q => strLt p.1 q.1 = true) (insAll [] ps) m
+    (by
+      intro a b _ _ hab hba
+      rw [C18.strLt_asymm _ _ hab] at hba
+      simp at hba) h1 hm (h2.trans hp)
+  exact key
+
+def unpiece (l : Str) : Str × Str :=
+  match splitOnFirst ['='] l with
+  | some kv => kv
+  | none => ([], [])
+
+theorem split_envPiece (p : Str × Str) (h : '=' ∉ p.1) : splitOnFirst ['='] (envPiece p) = some p := by
+  have := C18.splitOnFirst_found '=' [] p.1 p.2 h
+  simpa [envPiece] using this
+
+theorem envDe_pieces (ps acc : List (Str × Str)) (h : ∀ p ∈ ps, '=' ∉ p.1) :
+    envDe (ps.map envPiece) acc = .ok (insAll acc ps) := by
+  induction ps generalizing acc with
+  | nil => rfl
+  | cons p r ih =>
+    simp only [List.map_cons, envDe, split_envPiece p (h p (by simp))]
+    exact ih _ (fun q hq => h q (by simp [hq]))
 
 theorem env_ok : KindOK (.modelled envCodec) := by
-  intro v ⟨m, hv, hlen, hm⟩; subst hv
-  cases m with
-  | nil => simp [envCodec, envSer, Text.lines, rawLines, envDe]
-  | cons p r =>
-    cases r with
-    | cons q r' => simp at hlen
-    | nil =>
-      obtain ⟨h1, h2, h3, h4⟩ := hm p (by simp)
-      have hser : envSer [p] = p.1 ++ '=' :: (p.2 ++ ['\n']) := by simp [envSer, envPiece]
-      have hline : LineOK (p.1 ++ '=' :: p.2) := by
-        constructor
-        · intro hmem
-          simp only [List.mem_append, List.mem_cons] at hmem
-          rcases hmem with hmem | hmem | hmem
-          · exact h2 hmem
-          · exact absurd hmem (by decide)
-          · exact h3 hmem
-        · by_cases hp2 : p.2 = []
-          · rw [hp2]
-            have : (p.1 ++ ['=']).getLast? = some '=' := List.getLast?_concat
-            rw [this]; decide
-          · obtain ⟨i, z, hiz, _⟩ := C18.exists_snoc p.2 hp2
-            have hz : p.2.getLast? = some z := by rw [hiz]; exact List.getLast?_concat
-            have : p.1 ++ '=' :: p.2 = (p.1 ++ '=' :: i) ++ [z] := by rw [hiz]; simp
-            rw [this, List.getLast?_concat]
-            intro e; apply h4; rw [hz, e]
-      have hlines : Text.lines (p.1 ++ '=' :: (p.2 ++ ['\n'])) = [p.1 ++ '=' :: p.2] := by
-        have := lines_line_cons (p.1 ++ '=' :: p.2) [] hline
-        simpa [Text.lines, rawLines] using this
-      have hsplit : splitOnFirst ['='] (p.1 ++ '=' :: p.2) = some (p.1, p.2) := by
-        have := C18.splitOnFirst_found '=' [] p.1 p.2 h1
-        simpa using this
-      simp only [envCodec, hser, hlines, envDe, hsplit, mapInsert]
+  intro v ⟨m, hv, hsorted, hm⟩; subst hv
+  -- the sorted pieces are the pieces of a permutation `ps` of `m`
+  have hperm : List.Perm (sortStrings (m.map envPiece)) (m.map envPiece) := List.mergeSort_perm _ _
+  let ps := (sortStrings (m.map envPiece)).map unpiece
+  have hinv : ∀ p ∈ m, unpiece (envPiece p) = p := by
+    intro p hp; simp [unpiece, split_envPiece p (hm p hp).1]
+  have hps : List.Perm ps m := by
+    have h1 : List.Perm ps ((m.map envPiece).map unpiece) := hperm.map unpiece
+    have h2 : (m.map envPiece).map unpiece = m := by
+      rw [List.map_map]
+      conv => rhs; rw [← List.map_id m]
+      apply List.map_congr_left
+      intro p hp; exact hinv p hp
+    rwa [h2] at h1
+  have hlines : ps.map envPiece = sortStrings (m.map envPiece) := by
+    simp only [ps, List.map_map]
+    conv => rhs; rw [← List.map_id (sortStrings (m.map envPiece))]
+    apply List.map_congr_left
+    intro l hl
+    have : l ∈ m.map envPiece := hperm.subset hl
+    simp only [List.mem_map] at this
+    obtain ⟨p, hp, rfl⟩ := this
+    simp [hinv p hp]
+  have hpm : ∀ p ∈ ps, p ∈ m := fun p hp => hps.subset hp
+  have hl : Text.lines (joinWith ['\n'] (sortStrings (m.map envPiece))) = sortStrings (m.map envPiece) := by
+    apply lines_join
+    intro w hw
+    have : w ∈ m.map envPiece := hperm.subset hw
+    simp only [List.mem_map] at this
+    obtain ⟨p, hp, rfl⟩ := this
+    obtain ⟨h1, h2, h3, h4⟩ := hm p hp
+    refine ⟨by simp [envPiece], ?_, h4⟩
+    intro hmem
+    simp only [envPiece, List.mem_append, List.mem_cons] at hmem
+    rcases hmem with hmem | hmem | hmem
+    · exact h2 hmem
+    · exact absurd hmem (by decide)
+    · exact h3 hmem
+  simp only [envCodec, envSer, hl]
+  rw [← hlines, envDe_pieces ps [] (fun p hp => (hm p (hpm p hp)).1), insAll_perm_eq m ps hsorted hps]
 
 /-! #### the typed values of C18: the domain is the round-trip equation itself; the `Canon…`
     conditions of Props/C18 imply it -/
@@ -749,7 +962,7 @@ def pinnedKeys : List (Str × List Str) := [
   (c!"aptsources.Repository", [c!"Enabled", c!"Types", c!"URIs", c!"Suites", c!"Components", c!"Architectures", c!"Languages", c!"Targets", c!"PDiffs", c!"By-Hash", c!"Allow-Insecure", c!"Allow-Weak", c!"Allow-Downgrade-To-Insecure", c!"Trusted", c!"Signed-By", c!"X-Repolib-Name", c!"Description"]),
   (c!"apt.Release", [c!"Codename", c!"Components", c!"Architectures", c!"Description", c!"Origin", c!"Label", c!"Suite", c!"Version", c!"Date", c!"NotAutomatic", c!"ButAutomaticUpgrades", c!"Acquire-By-Hash"]),
   (c!"apt.Source", [c!"Directory", c!"Description", c!"Version", c!"Package", c!"Binary", c!"Maintainer", c!"Build-Depends", c!"Build-Depends-Indep", c!"Build-Conflicts", c!"Build-Conflicts-Indep", c!"Standards-Version", c!"Homepage", c!"Autobuild", c!"Testsuite", c!"Vcs-Browser", c!"Vcs-Git", c!"Vcs-Bzr", c!"Vcs-Hg", c!"Vcs-Svn", c!"Vcs-Darcs", c!"Vcs-Cvs", c!"Vcs-Arch", c!"Vcs-Mtn", c!"Priority", c!"Section", c!"Format", c!"Package-List"]),
-  (c!"apt.Package", [c!"Package", c!"Version", c!"Architecture", c!"Maintainer", c!"Installed-Size", c!"Depends", c!"Pre-Depends", c!"Recommends", c!"Suggests", c!"Enhances", c!"Breaks", c!"Conflicts", c!"Provides", c!"Replaces", c!"Built-Using", c!"Description", c!"Homepage", c!"Priority", c!"Section", c!"Essential", c!"Tag", c!"Size", c!"MD5sum", c!"SHA256", c!"Description-MD5"]),
+  (c!"apt.Package", [c!"Package", c!"Version", c!"Architecture", c!"Maintainer", c!"Installed-Size", c!"Depends", c!"Pre-Depends", c!"Recommends", c!"Suggests", c!"Enhances", c!"Breaks", c!"Conflicts", c!"Provides", c!"Replaces", c!"Built-Using", c!"Description", c!"Homepage", c!"Priority", c!"Section", c!"Essential", c!"Tag", c!"Size", c!"MD5sum", c!"SHA256", c!"Description-md5"]),
   (c!"buildinfo.Buildinfo", [c!"Format", c!"Build-Architecture", c!"Source", c!"Binary", c!"Architecture", c!"Version", c!"Binary-Only-Changes", c!"Checksums-Sha256", c!"Checksums-Sha1", c!"Checksums-Md5", c!"Build-Origin", c!"Build-Date", c!"Build-Tainted-By", c!"Build-Path", c!"Environment", c!"Installed-Build-Depends"]),
   (c!"control.Source", [c!"Source", c!"Build-Depends", c!"Build-Depends-Indep", c!"Build-Depends-Arch", c!"Build-Conflicts", c!"Build-Conflicts-Indep", c!"Build-Conflicts-Arch", c!"Standards-Version", c!"Homepage", c!"Section", c!"Priority", c!"Maintainer", c!"Uploaders", c!"Architecture", c!"Rules-Requires-Root", c!"Testsuite", c!"Vcs-Git", c!"Vcs-Browser"]),
   (c!"control.Binary", [c!"Package", c!"Depends", c!"Recommends", c!"Suggests", c!"Enhances", c!"Pre-Depends", c!"Breaks", c!"Conflicts", c!"Replaces", c!"Provides", c!"Built-Using", c!"Architecture", c!"Section", c!"Priority", c!"Multi-Arch", c!"Essential", c!"Description"]),
@@ -787,13 +1000,13 @@ def pinnedSources : List (Str × Str) := [
   (c!"aptsources.deserialize_uris", c!"4442d6d8d83e6d3d"),
   (c!"aptsources.deserialize_yesno", c!"54e6cda5837bc546"),
   (c!"aptsources.serialize_string_chain", c!"349b89024a077916"),
-  (c!"aptsources.serialize_types", c!"36dbfc021945d357"),
+  (c!"aptsources.serialize_types", c!"5ff90701a83ce5cb"),
   (c!"aptsources.serialize_uris", c!"6302934f11f45d6f"),
   (c!"aptsources.serializer_yesno", c!"4e7cbbb69baccb2a"),
   (c!"buildinfo.deserialize_env", c!"f58c97b8afde71f7"),
   (c!"buildinfo.deserialize_pathbuf", c!"3444f68eaadb4d0a"),
   (c!"buildinfo.deserialize_version", c!"719f4249e1db1afc"),
-  (c!"buildinfo.serialize_env", c!"e8cb3388e7ab022c"),
+  (c!"buildinfo.serialize_env", c!"29b1fd943570c429"),
   (c!"buildinfo.serialize_pathbuf", c!"af9aee2952bbc689"),
   (c!"buildinfo.serialize_version", c!"ccf0f1c6c10d2665"),
   (c!"control.deserialize_yesno", c!"230ef134300e05e5"),
